@@ -106,6 +106,26 @@ def replay(path):
     return run_check(d["property"], "quick", 0, only=(d["rule"], d["key"]))
 
 
+def run_selftest(prop):
+    """Thorough tier: mutants, benign variants and recorded seeds of this property on scratch copies."""
+    import subprocess
+    import tempfile
+    out = tempfile.NamedTemporaryFile(prefix="verif-selftest-", suffix=".json", delete=False)
+    out.close()
+    try:
+        subprocess.run([os.path.join(VERIF, "bin", "selftest"), "--prop", prop, "--json", out.name],
+                       cwd=VERIF, stdout=sys.stderr, stderr=sys.stderr)
+        return json.load(open(out.name))
+    except Exception as e:
+        return [{"case": "selftest", "kind": "harness", "property": prop, "exit": -1, "as_expected": False,
+                 "expected": "harness runs", "report": [str(e)]}]
+    finally:
+        try:
+            os.unlink(out.name)
+        except OSError:
+            pass
+
+
 def run_check(prop, tier, seed, only=None):
     ctx = Ctx(prop, tier, seed)
     os.makedirs(EVIDENCE_DIR, exist_ok=True)
@@ -170,6 +190,14 @@ def run_check(prop, tier, seed, only=None):
     if soft_broken is not None:
         ctx.notes.append("not a clean run: " + soft_broken)
 
+    selftest = None
+    if tier == "thorough" and not os.environ.get("VERIF_SELFTEST"):
+        selftest = run_selftest(prop)
+        bad = [r for r in selftest if not r["as_expected"]]
+        if bad and not violations:
+            print("CHECK-BROKEN: property=%s selftest: %s" % (prop, "; ".join(
+                "%s(%s) exit=%s expected %s" % (r["case"], r["kind"], r["exit"], r["expected"]) for r in bad[:4])))
+            return 2
     n_ob = len(ctx.obligations)
     n_ok = sum(1 for o in ctx.obligations if o["ok"])
     distinct = len(set((o["rule"], o["key"]) for o in ctx.obligations))
@@ -202,6 +230,7 @@ def run_check(prop, tier, seed, only=None):
             "trusted_base": ["rustc nightly MIR construction and trait resolution", "engine/src/main.rs fact dump",
                              "rules/lib.py CFG/dominator/flow library"],
             "notes": ctx.notes,
+            "selftest": selftest,
             "exhaustive": bool(getattr(mod, "EXHAUSTIVE", False)),
         },
         "assumptions": list(getattr(mod, "ASSUMPTIONS", [])) + ctx.assumptions,
